@@ -68,10 +68,16 @@ Definition needs_wf (p : pass) : bool :=
   match p with PCombineContainers | PSimplifyUnionsWithSuperclasses => true | _ => false end.
 Definition keeps_wf (p : pass) : bool :=
   match p with PAdjustSelf | PLookupClasses => false | _ => true end.
+(* AdjustSelf rewrites `self: Any` to the class (not a widening); Optimize only runs it under
+   remove_mutable, and the theorem then assumes a unit without classes *)
+Definition is_remove_mutable (f : flag) : bool := match f with FRemoveMutable => true | _ => false end.
+Definition guard_ok (fl : list flag) (p : pass) : bool :=
+  match p with PAdjustSelf => existsb is_remove_mutable fl | _ => true end.
 Fixpoint pipeline_ok (wfok : bool) (ps : list (list flag * pass)) : bool :=
   match ps with
   | [] => true
-  | (_, p) :: r => (negb (needs_wf p) || wfok) && pipeline_ok (wfok && keeps_wf p) r
+  | (fl, p) :: r =>
+      (negb (needs_wf p) || wfok) && guard_ok fl p && pipeline_ok (wfok && keeps_wf p) r
   end.
 
 (* --- single-member unions *)
@@ -83,3 +89,94 @@ Fixpoint no_single (t : ty) : Prop :=
       (fix all l := match l with [] => True | x :: r => no_single x /\ all r end) ps
   | _ => True
   end.
+
+(* --- optimiser normal forms: declarations every enabled lossless pass leaves alone.
+   (Used by optimize_idempotent_partial; every clause is a syntactic condition on the stub.) *)
+Fixpoint no_class_object (t : ty) : bool :=
+  match t with
+  | TName KClass c => negb (Nat.eqb c c_object)
+  | TUnion ts | TGen _ _ ts | TTup _ _ ts | TCall _ _ ts => forallb no_class_object ts
+  | _ => true
+  end.
+
+Definition is_union (t : ty) : bool := match t with TUnion _ => true | _ => false end.
+Definition is_nothing (t : ty) : bool := match t with TNothing => true | _ => false end.
+
+Fixpoint distinct_by {A} (eqb : A -> A -> bool) (l : list A) : bool :=
+  match l with
+  | [] => true
+  | x :: r => negb (existsb (eqb x) r) && distinct_by eqb r
+  end.
+
+(* [H]: effective superclass table; [deps]: SimplifyUnionsWithSuperclasses runs; [maxu]: max_union (0 = off);
+   [kk]: the one spelling of class references (ClassType if LookupClasses runs at the end) *)
+Fixpoint stable_ty (H : hier) (deps : bool) (maxu : nat) (kk : kind) (t : ty) : bool :=
+  match t with
+  | TName k _ => kind_eqb k kk
+  | TAny | TNothing | TLit _ => true
+  | TUnion ts =>
+      (2 <=? length ts)
+      && forallb (fun x => negb (is_union x || is_nothing x || is_any x)) ts     (* flat, no Any / nothing *)
+      && distinct_by ty_eqb ts                                                    (* no duplicate member *)
+      && negb (should_merge true None ts) && negb (should_merge false None ts)    (* nothing to degenerate *)
+      && distinct_by ckey_eqb (filter_map key_of ts)                              (* no two containers to merge *)
+      && (negb deps ||
+          forallb (fun x => match name_of x with                                  (* no member below another *)
+                            | Some n => suws_count H (filter_map name_of ts) n <=? 1
+                            | None => true end) ts)
+      && (Nat.eqb maxu 0 || (length ts <=? maxu) || existsb is_lit ts)            (* not over-long *)
+      && forallb (stable_ty H deps maxu kk) ts
+  | TGen k _ ps => kind_eqb k kk && negb (forallb is_any ps) && forallb (stable_ty H deps maxu kk) ps
+  | TTup k _ ps | TCall k _ ps => kind_eqb k kk && forallb (stable_ty H deps maxu kk) ps
+  end.
+
+Definition stable_param (st : ty -> bool) (p : param) : bool :=
+  st (p_ty p) && match p_mut p with Some m => st m | None => true end.
+Definition stable_oparam (st : ty -> bool) (p : option param) : bool :=
+  match p with Some p => stable_param st p | None => true end.
+(* return types (and constants) additionally must not mention ClassType(builtins.object) *)
+Definition stable_sig (st : ty -> bool) (s : sig) : bool :=
+  forallb (stable_param st) (s_params s) && stable_oparam st (s_star s) && stable_oparam st (s_starstar s)
+  && st (s_ret s) && no_class_object (s_ret s)
+  && forallb st (s_exc s) && distinct_by py_eqb (s_exc s).
+(* no two signatures with the same parameters *)
+Definition stable_func (st : ty -> bool) (f : func) : bool :=
+  forallb (stable_sig st) (f_sigs f) && distinct_by stripped_eqb (f_sigs f).
+Definition stable_const (st : ty -> bool) (c : const) : bool := st (k_ty c) && no_class_object (k_ty c).
+(* no method whose self is annotated with the class itself, parameterised *)
+Definition self_plain (cls : cid) (s : sig) : bool :=
+  match s_params s with
+  | p :: _ => negb (Nat.eqb (p_name p) 0 && is_generic (p_ty p) && Nat.eqb (base_cid (p_ty p)) cls)
+  | [] => true
+  end.
+Definition stable_class (st : ty -> bool) (c : class) : bool :=
+  forallb (fun f => stable_func st f && forallb (self_plain (cl_name c)) (f_sigs f)) (cl_methods c)
+  && forallb (stable_const st) (cl_consts c)
+  && forallb (fun b => kind_eqb (fst b) KClass) (cl_bases c).
+Definition stable_unit (o : opts) (Hd : hier) (u : unit_) : bool :=
+  let kk := KClass in
+  let st := stable_ty (hier_of u ++ Hd) (o_deps o) (o_max_union o) kk in
+  forallb (stable_const st) (u_consts u) && forallb (stable_class st) (u_classes u)
+  && forallb (stable_func st) (u_funcs u).
+
+(* the lossless option settings without remove_mutable (what pytype itself uses is one of them) *)
+Definition lossless (o : opts) : Prop :=
+  o_lossy o = false /\ o_use_abcs o = false /\ o_remove_mutable o = false.
+
+(* the regenerated pass list only runs the passes outside this theorem under their flags *)
+Definition has_flag (f : flag) (fl : list flag) : bool :=
+  existsb (fun g => match f, g with
+                    | FDeps, FDeps | FLossy, FLossy | FUseAbcs, FUseAbcs | FMaxUnion, FMaxUnion
+                    | FRemoveMutable, FRemoveMutable | FCanDoLookup, FCanDoLookup => true
+                    | _, _ => false end) fl.
+Definition idem_guard_ok (fl : list flag) (p : pass) : bool :=
+  match p with
+  | PFindCommonSuperClasses => has_flag FLossy fl
+  | PUseAbcs => has_flag FUseAbcs fl
+  | PAbsorbMutableParameters | PMergeTypeParameters | PAdjustSelf => has_flag FRemoveMutable fl
+  | PSimplifyUnionsWithSuperclasses => has_flag FDeps fl
+  | PCollapseLongUnions => has_flag FMaxUnion fl
+  | _ => true
+  end.
+Definition idem_pipeline_ok (ps : list (list flag * pass)) : bool :=
+  forallb (fun s => idem_guard_ok (fst s) (snd s)) ps.
